@@ -89,6 +89,10 @@ EXPLANATION += (
     ' Round 11: a list whose order was frozen from a set must be sorted before a TaxonomyTree is built from it (taint: frozen order); n_processors and chunk_size reach the election as configured.'
 )
 
+EXPLANATION += (
+    ' Round 13: positions returned by a binary search depend on the arrangement of the array searched (taint).'
+)
+
 RULE_TEXT = (
     "one obligation per (sink site, set of source labels) finding, per "
     "benign source used, per RNG construction, per merge loop, per worker "
